@@ -1,5 +1,429 @@
 /-
-  Props/C03.lean — property theorems for C03 (stub; to be filled in).
+  Props/C03.lean — C03: every mutation is validated and failure-atomic.
+
+  `Sem/Mutate.step` interprets attribute assignment, item deletion and every mutating method of
+  the typed collection wrappers from the table that extract/wrappers.py regenerates from the
+  working tree (`Generated.wrappers`).  If every mutator row is `validated` (overridden and routed
+  through a validated assignment) then, for every class typedpy lets you define, every well-formed
+  start instance and every finite history of top-level operations (failed ones included):
+  the instance stays well-formed (`run_wellformed`) and every failed operation leaves it unchanged
+  (`step_err_unchanged`, `run_failures_atomic`), raising only TypeError / ValueError / IndexError /
+  KeyError (`step_err_class`).  `tables_ok` discharges the table hypothesis for the current tree.
+
+  Known finding (kernel-checked below): a typed wrapper nested inside another collection is bound
+  to a scratch structure, so `x.f[k].append(bad)` is not validated (`nested_counterexample`); the
+  full statement including nested wrappers is therefore false of the current code and only the
+  top-level part is proved (`…_partial` in the sense of DESIGN §5.1).
 -/
+import TypedpyModel.Lemmas.MutateLemmas
+import TypedpyModel.Props.C01
+import TypedpyModel.Generated.Wrappers
 namespace Typedpy.C03
+open Typedpy
+
+/-- the instance state is well-formed for its class -/
+def WfState (O : Oracles) (c : ClassOpts) (fields : List (String × FieldDecl)) (s : Attrs) : Bool :=
+  wfAttrs c (fields.map (·.1)) s (fieldsConform O s fields)
+
+/-- every mutator of every wrapper reaches the instance only through a validated assignment -/
+def SafeTbl (tbl : List MethodRec) : Bool := tbl.all (·.validated)
+
+/-- operations applied to the instance itself or to the value of one of its fields -/
+def TopOp : Op → Bool
+  | .callNested _ _ _ => false
+  | _ => true
+
+def AllowedErr (e : MErr) : Prop :=
+  e = .typeErr ∨ e = .valueErr ∨ e = .both ∨ e = .indexErr ∨ e = .keyErr ∨ e = .other "AttributeError"
+
+theorem wfFields_mem : ∀ (fields : List (String × FieldDecl)), wfFields fields = true →
+    ∀ name fd, (name, fd) ∈ fields → wfDecl fd = true
+  | [], _, _, _, hm => by simp at hm
+  | (n0, f0) :: rest, hw, name, fd, hm => by
+    simp only [wfFields, and_true_iff] at hw
+    simp only [List.mem_cons] at hm
+    rcases hm with hm | hm
+    · rw [(Prod.mk.inj hm).2]; exact hw.1
+    · exact wfFields_mem rest hw.2 name fd hm
+
+theorem lookup_mem {α} (f : String) (fd : α) : ∀ fields : List (String × α),
+    lookup f fields = some fd → (f, fd) ∈ fields
+  | [], h => by simp [lookup] at h
+  | (k, w) :: rest, h => by
+    simp only [lookup] at h
+    by_cases hk : (f == k) = true
+    · simp only [hk, if_true, Option.some.injEq] at h
+      have : f = k := by simpa using hk
+      subst this; subst h; simp
+    · simp only [hk, Bool.false_eq_true, if_false] at h
+      exact List.mem_cons_of_mem _ (lookup_mem f fd rest h)
+
+/-! ### attribute assignment -/
+
+theorem setattr_err_unchanged (O : Oracles) (c : ClassOpts) (fields : List (String × FieldDecl))
+    (s s' : Attrs) (f : String) (v : PyVal) (e : MErr)
+    (h : setattrStep O c fields s f v = (s', .err e)) : s' = s := by
+  unfold setattrStep at h
+  repeat' split at h
+  all_goals first | (cases h; rfl) | (injection h with h1 h2; cases h2)
+
+theorem validate_err_allowed (O : Oracles) (fd : FieldDecl) (v : PyVal) (e : ErrCls)
+    (hv : validate O fd v = .error e) : AllowedErr (MErr.ofErrCls e) := by
+  have hs := validate_spec O fd v
+  cases ha : admits O fd v
+  · rcases hs.2 ha with ⟨e', he, hc⟩
+    rw [hv] at he
+    cases he
+    rcases hc with hc | hc | hc <;> subst hc
+    · exact Or.inl rfl
+    · exact Or.inr (Or.inl rfl)
+    · exact Or.inr (Or.inr (Or.inl rfl))
+  · rw [hs.1 ha] at hv; cases hv
+
+theorem setattr_err_class (O : Oracles) (c : ClassOpts) (fields : List (String × FieldDecl))
+    (s s' : Attrs) (f : String) (v : PyVal) (e : MErr)
+    (h : setattrStep O c fields s f v = (s', .err e)) : AllowedErr e := by
+  have hval : AllowedErr .valueErr := Or.inr (Or.inl rfl)
+  unfold setattrStep at h
+  split at h
+  · cases h; exact hval
+  · split at h
+    · split at h
+      · cases h; exact hval
+      · split at h <;> (injection h with _ h2; cases h2)
+    · rename_i fd hl
+      split at h
+      · injection h with _ h2; cases h2
+      · split at h
+        · rename_i e' hv
+          cases h
+          exact validate_err_allowed O fd v e' hv
+        · split at h
+          · cases h; exact hval
+          · injection h with _ h2; cases h2
+
+theorem wfState_assocSet_field (O : Oracles) (c : ClassOpts) (fields : List (String × FieldDecl))
+    (s : Attrs) (f : String) (fd : FieldDecl) (v' : PyVal)
+    (hnd : strNodup (fields.map (·.1)) = true) (hl : lookup f fields = some fd)
+    (hconf : conforms O fd v' = true) (hs : WfState O c fields s = true) :
+    WfState O c fields (assocSet f v' s) = true := by
+  unfold WfState wfAttrs at hs ⊢
+  simp only [and_true_iff] at hs ⊢
+  refine ⟨⟨?_, ?_⟩, ?_⟩
+  · rw [List.all_eq_true] at *
+    intro r hr
+    exact lookup_assocSet_isSome f r v' s (hs.1.1 r hr)
+  · apply fieldsConform_update O s _ fields _ hs.1.2
+    intro name g hm w hw
+    cases hnf : (name == f)
+    · rw [lookup_assocSet_ne f name v' hnf] at hw; exact Or.inl hw
+    · have : name = f := by simpa using hnf
+      subst this
+      rw [lookup_assocSet_same] at hw
+      cases hw
+      rw [lookup_mem_unique name fd fields hnd hl g hm]
+      exact Or.inr hconf
+  · cases hadd : c.addl
+    · simp only [hadd, Bool.false_or] at hs ⊢
+      exact assocSet_keys (fun k => (fields.map (·.1)).contains k) f v'
+        (lookup_some_contains f fd fields hl) s hs.2
+    · rfl
+
+theorem wfState_assocSet_extra (O : Oracles) (c : ClassOpts) (fields : List (String × FieldDecl))
+    (s : Attrs) (f : String) (v : PyVal) (hadd : c.addl = true) (hl : lookup f fields = none)
+    (hs : WfState O c fields s = true) : WfState O c fields (assocSet f v s) = true := by
+  unfold WfState wfAttrs at hs ⊢
+  simp only [and_true_iff] at hs ⊢
+  refine ⟨⟨?_, ?_⟩, by simp [hadd]⟩
+  · rw [List.all_eq_true] at *
+    intro r hr
+    exact lookup_assocSet_isSome f r v s (hs.1.1 r hr)
+  · apply fieldsConform_update O s _ fields _ hs.1.2
+    intro name g hm w hw
+    have hnf : (name == f) = false := by
+      cases h : (name == f)
+      · rfl
+      · have : name = f := by simpa using h
+        subst this
+        have := lookup_none_of_not_contains name fields
+        have hc := mem_names_of_mem name g fields hm
+        rw [← lookup_isSome_map, hl] at hc
+        cases hc
+    rw [lookup_assocSet_ne f name v hnf] at hw; exact Or.inl hw
+
+theorem setattr_ok_wf (O : Oracles) (c : ClassOpts) (fields : List (String × FieldDecl))
+    (s s' : Attrs) (f : String) (v : PyVal)
+    (hnd : strNodup (fields.map (·.1)) = true) (hwf : wfFields fields = true)
+    (hs : WfState O c fields s = true)
+    (h : setattrStep O c fields s f v = (s', .ok)) : WfState O c fields s' = true := by
+  unfold setattrStep at h
+  split at h
+  · injection h with _ h2; cases h2
+  · split at h
+    · rename_i hl
+      split at h
+      · injection h with _ h2; cases h2
+      · rename_i hadd
+        split at h
+        · cases h; exact hs
+        · cases h
+          exact wfState_assocSet_extra O c fields s f v (by simpa using hadd) hl hs
+    · rename_i fd hl
+      split at h
+      · cases h; exact hs
+      · split at h
+        · injection h with _ h2; cases h2
+        · rename_i v' hv
+          split at h
+          · injection h with _ h2; cases h2
+          · cases h
+            exact wfState_assocSet_field O c fields s f fd v' hnd hl
+              (C01.validate_sound O fd v v' (wfFields_mem fields hwf f fd (lookup_mem f fd fields hl)) hv) hs
+
+/-! ### item deletion -/
+
+theorem delitem_err_unchanged (c : ClassOpts) (s s' : Attrs) (f : String) (e : MErr)
+    (h : delitemStep c s f = (s', .err e)) : s' = s := by
+  unfold delitemStep at h
+  repeat' split at h
+  all_goals first | (cases h; rfl) | (injection h with h1 h2; cases h2)
+
+theorem delitem_err_class (c : ClassOpts) (s s' : Attrs) (f : String) (e : MErr)
+    (h : delitemStep c s f = (s', .err e)) : AllowedErr e := by
+  unfold delitemStep at h
+  repeat' split at h
+  all_goals first
+    | (injection h with h1 h2; cases h2; first
+        | exact Or.inr (Or.inl rfl)
+        | exact Or.inr (Or.inr (Or.inr (Or.inr (Or.inl rfl)))))
+    | (injection h with h1 h2; cases h2)
+
+theorem delitem_ok_wf (O : Oracles) (c : ClassOpts) (fields : List (String × FieldDecl))
+    (s s' : Attrs) (f : String) (hs : WfState O c fields s = true)
+    (h : delitemStep c s f = (s', .ok)) : WfState O c fields s' = true := by
+  unfold delitemStep at h
+  split at h
+  · injection h with _ h2; cases h2
+  · split at h
+    · injection h with _ h2; cases h2
+    · split at h
+      · injection h with _ h2; cases h2
+      · rename_i hreq
+        split at h
+        · injection h with _ h2; cases h2
+        · cases h
+          unfold WfState wfAttrs at hs ⊢
+          simp only [and_true_iff] at hs ⊢
+          refine ⟨⟨?_, ?_⟩, ?_⟩
+          · rw [List.all_eq_true] at *
+            intro r hr
+            have hne : (r == f) = false := by
+              cases hrf : (r == f)
+              · rfl
+              · have : r = f := by simpa using hrf
+                subst this
+                exact absurd (List.contains_iff_mem.mpr hr) hreq
+            rw [lookup_assocDel_ne f r hne]; exact hs.1.1 r hr
+          · apply fieldsConform_update O s _ fields _ hs.1.2
+            intro name g _ w hw
+            cases hnf : (name == f)
+            · rw [lookup_assocDel_ne f name hnf] at hw; exact Or.inl hw
+            · have : name = f := by simpa using hnf
+              subst this
+              rw [lookup_assocDel_same] at hw; cases hw
+          · cases hadd : c.addl
+            · simp only [hadd, Bool.false_or] at hs ⊢
+              exact assocDel_keys (fun k => (fields.map (·.1)).contains k) f s hs.2
+            · rfl
+
+/-! ### wrapper mutators -/
+
+/-- **refinement**: a validated mutator behaves exactly like a validated assignment of the natively
+    mutated copy (after the immutability guard and the container's own Index/KeyError) -/
+theorem call_refines_setattr (O : Oracles) (c : ClassOpts) (fields : List (String × FieldDecl))
+    (s : Attrs) (f kind : String) (r : MethodRec) (m : NOp) (cur : PyVal)
+    (hr : r.validated = true) :
+    callStep O c fields s f kind r m cur =
+      (if r.guarded && (c.immutable || c.immFields.contains f) then (s, .err .valueErr)
+       else match applyNative kind m cur with
+        | .error e => (s, .err (MErr.ofNErr e))
+        | .ok new => if c.immFields.contains f then (s, .err .valueErr)
+                     else setattrStep O c fields s f new) := by
+  unfold callStep
+  simp only [hr, if_true]
+  split
+  · rfl
+  · cases applyNative kind m cur <;> rfl
+
+theorem ofNErr_allowed (e : NErr) : AllowedErr (MErr.ofNErr e) := by
+  cases e
+  · exact Or.inr (Or.inr (Or.inr (Or.inl rfl)))
+  · exact Or.inr (Or.inr (Or.inr (Or.inr (Or.inl rfl))))
+  · exact Or.inr (Or.inl rfl)
+  · exact Or.inl rfl
+
+theorem call_facts (O : Oracles) (c : ClassOpts) (fields : List (String × FieldDecl))
+    (s s' : Attrs) (f kind : String) (r : MethodRec) (m : NOp) (cur : PyVal) (out : Outcome)
+    (hr : r.validated = true)
+    (h : callStep O c fields s f kind r m cur = (s', out)) :
+    (∃ e, out = .err e ∧ s' = s ∧ AllowedErr e) ∨
+    (∃ new, setattrStep O c fields s f new = (s', out)) := by
+  rw [call_refines_setattr O c fields s f kind r m cur hr] at h
+  split at h
+  · cases h; exact Or.inl ⟨_, rfl, rfl, Or.inr (Or.inl rfl)⟩
+  · split at h
+    · cases h; exact Or.inl ⟨_, rfl, rfl, ofNErr_allowed _⟩
+    · split at h
+      · cases h; exact Or.inl ⟨_, rfl, rfl, Or.inr (Or.inl rfl)⟩
+      · exact Or.inr ⟨_, h⟩
+
+/-! ### single step -/
+
+theorem findRec_mem (tbl : List MethodRec) (w m : String) (r : MethodRec)
+    (h : findRec tbl w m = some r) : r ∈ tbl := by
+  unfold findRec at h
+  exact List.mem_of_find?_eq_some h
+
+/-- what one top-level operation can do: fail atomically with an allowed error, or perform a
+    validated assignment / a deletion -/
+theorem step_cases (tbl : List MethodRec) (O : Oracles) (c : ClassOpts)
+    (fields : List (String × FieldDecl)) (s s' : Attrs) (op : Op) (out : Outcome)
+    (htbl : SafeTbl tbl = true) (htop : TopOp op = true)
+    (h : step tbl O c fields s op = (s', out)) :
+    (∃ e, out = .err e ∧ s' = s ∧ AllowedErr e) ∨
+    (∃ f v, setattrStep O c fields s f v = (s', out)) ∨
+    (∃ f, delitemStep c s f = (s', out)) := by
+  cases op with
+  | setattr f v => exact Or.inr (Or.inl ⟨f, v, h⟩)
+  | delitem f => exact Or.inr (Or.inr ⟨f, h⟩)
+  | callNested f k m => simp [TopOp] at htop
+  | call f m =>
+    simp only [step] at h
+    have attrErr : AllowedErr (.other "AttributeError") :=
+      Or.inr (Or.inr (Or.inr (Or.inr (Or.inr rfl))))
+    split at h
+    · rename_i fd cur _ _
+      split at h
+      · cases h; exact Or.inl ⟨_, rfl, rfl, attrErr⟩
+      · rename_i kind _
+        split at h
+        · cases h; exact Or.inl ⟨_, rfl, rfl, attrErr⟩
+        · rename_i r hfind
+          have hr : r.validated = true :=
+            (List.all_eq_true.mp htbl) r (findRec_mem tbl kind m.name r hfind)
+          rcases call_facts O c fields s s' f kind r m cur out hr h with h1 | ⟨new, h2⟩
+          · exact Or.inl h1
+          · exact Or.inr (Or.inl ⟨f, new, h2⟩)
+    · cases h; exact Or.inl ⟨_, rfl, rfl, attrErr⟩
+
+/-- a failed operation leaves the instance unchanged -/
+theorem step_err_unchanged (tbl : List MethodRec) (O : Oracles) (c : ClassOpts)
+    (fields : List (String × FieldDecl)) (s s' : Attrs) (op : Op) (e : MErr)
+    (htbl : SafeTbl tbl = true) (htop : TopOp op = true)
+    (h : step tbl O c fields s op = (s', .err e)) : s' = s := by
+  rcases step_cases tbl O c fields s s' op _ htbl htop h with ⟨_, _, h2, _⟩ | ⟨f, v, h2⟩ | ⟨f, h2⟩
+  · exact h2
+  · exact setattr_err_unchanged O c fields s s' f v e h2
+  · exact delitem_err_unchanged c s s' f e h2
+
+/-- a failed operation raises TypeError / ValueError, or the container's IndexError / KeyError
+    (AttributeError only when the field holds no value to operate on) -/
+theorem step_err_class (tbl : List MethodRec) (O : Oracles) (c : ClassOpts)
+    (fields : List (String × FieldDecl)) (s s' : Attrs) (op : Op) (e : MErr)
+    (htbl : SafeTbl tbl = true) (htop : TopOp op = true)
+    (h : step tbl O c fields s op = (s', .err e)) : AllowedErr e := by
+  rcases step_cases tbl O c fields s s' op _ htbl htop h with ⟨e', h1, _, h3⟩ | ⟨f, v, h2⟩ | ⟨f, h2⟩
+  · cases h1; exact h3
+  · exact setattr_err_class O c fields s s' f v e h2
+  · exact delitem_err_class c s s' f e h2
+
+/-- every operation (successful or not) leaves a well-formed instance well-formed -/
+theorem step_wf (tbl : List MethodRec) (O : Oracles) (c : ClassOpts)
+    (fields : List (String × FieldDecl)) (s s' : Attrs) (op : Op) (out : Outcome)
+    (hnd : strNodup (fields.map (·.1)) = true) (hwf : wfFields fields = true)
+    (htbl : SafeTbl tbl = true) (htop : TopOp op = true) (hs : WfState O c fields s = true)
+    (h : step tbl O c fields s op = (s', out)) : WfState O c fields s' = true := by
+  rcases step_cases tbl O c fields s s' op out htbl htop h with ⟨_, _, h2, _⟩ | ⟨f, v, h2⟩ | ⟨f, h2⟩
+  · rw [h2]; exact hs
+  · cases out with
+    | ok => exact setattr_ok_wf O c fields s s' f v hnd hwf hs h2
+    | err e => rw [setattr_err_unchanged O c fields s s' f v e h2]; exact hs
+  · cases out with
+    | ok => exact delitem_ok_wf O c fields s s' f hs h2
+    | err e => rw [delitem_err_unchanged c s s' f e h2]; exact hs
+
+/-! ### histories -/
+
+/-- **C03 (validated)**: after any finite history of top-level operations, failed ones included,
+    the instance is well-formed -/
+theorem run_wellformed (tbl : List MethodRec) (O : Oracles) (c : ClassOpts)
+    (fields : List (String × FieldDecl))
+    (hnd : strNodup (fields.map (·.1)) = true) (hwf : wfFields fields = true)
+    (htbl : SafeTbl tbl = true) :
+    ∀ (ops : List Op) (s : Attrs), ops.all TopOp = true → WfState O c fields s = true →
+      WfState O c fields (run tbl O c fields s ops).1 = true
+  | [], s, _, hs => by simpa [run] using hs
+  | op :: rest, s, hops, hs => by
+    simp only [List.all_cons, and_true_iff] at hops
+    simp only [run]
+    exact run_wellformed tbl O c fields hnd hwf htbl rest _ hops.2
+      (step_wf tbl O c fields s _ op _ hnd hwf htbl hops.1 hs rfl)
+
+/-- the states before and after the `i`-th operation of a history -/
+def stateAt (tbl : List MethodRec) (O : Oracles) (c : ClassOpts) (fields : List (String × FieldDecl))
+    (s : Attrs) (ops : List Op) (i : Nat) : Attrs :=
+  (run tbl O c fields s (ops.take i)).1
+
+/-- **C03 (failure-atomic)**: in any history, an operation that fails leaves the instance exactly
+    as it was before that operation -/
+theorem run_failures_atomic (tbl : List MethodRec) (O : Oracles) (c : ClassOpts)
+    (fields : List (String × FieldDecl)) (htbl : SafeTbl tbl = true) (s : Attrs) (ops : List Op)
+    (hops : ops.all TopOp = true) (i : Nat) (op : Op) (hi : ops[i]? = some op) (e : MErr)
+    (h : (step tbl O c fields (stateAt tbl O c fields s ops i) op).2 = .err e) :
+    (step tbl O c fields (stateAt tbl O c fields s ops i) op).1 = stateAt tbl O c fields s ops i := by
+  have htop : TopOp op = true :=
+    (List.all_eq_true.mp hops) op (List.mem_of_getElem? hi)
+  exact step_err_unchanged tbl O c fields _ _ op e htbl htop (Prod.ext rfl h)
+
+/-- the table regenerated from the current working tree has no unvalidated mutator -/
+theorem tables_ok : SafeTbl Generated.wrappers = true := by decide
+
+/-- for the current tree: every history of top-level operations keeps the instance well-formed -/
+theorem run_wellformed_current (O : Oracles) (c : ClassOpts) (fields : List (String × FieldDecl))
+    (defaults : List (String × PyVal)) (hw : wfDecl (.struct c fields defaults) = true)
+    (ops : List Op) (s : Attrs) (hops : ops.all TopOp = true) (hs : WfState O c fields s = true) :
+    WfState O c fields (run Generated.wrappers O c fields s ops).1 = true := by
+  simp only [wfDecl, and_true_iff] at hw
+  exact run_wellformed Generated.wrappers O c fields hw.1.1 hw.2 tables_ok ops s hops hs
+
+/-! ### non-vacuity and the known finding -/
+
+def exO : Oracles := { reMatch := fun _ _ => true }
+def exC : ClassOpts := { name := "A", required := ["a"], addl := false, accepts := ["A"] }
+def exFields : List (String × FieldDecl) :=
+  [("a", .seqOf .list (.integer { min := some ⟨0, 1⟩ }) { max := some 3 }),
+   ("n", .seqOf .list (.seqOf .list (.integer {}) {}) {})]
+def exStart : Attrs := [("a", .list [.int 1, .int 2]), ("n", .list [.list [.int 1]])]
+
+theorem machine_example :
+    WfState exO exC exFields exStart = true
+    ∧ (step Generated.wrappers exO exC exFields exStart (.call "a" (.append (.int 3)))).2 = .ok
+    ∧ (step Generated.wrappers exO exC exFields exStart (.call "a" (.append (.int (-1))))).2
+        = .err .valueErr
+    ∧ (step Generated.wrappers exO exC exFields exStart (.call "a" (.iadd [.int 5, .int 6]))).2
+        = .err .valueErr
+    ∧ (step Generated.wrappers exO exC exFields exStart (.call "a" (.delitem (.int 7)))).2
+        = .err .indexErr
+    ∧ (step Generated.wrappers exO exC exFields exStart (.delitem "a")).2 = .err .valueErr := by
+  decide
+
+/-- known finding `unvalidated:nested-list.append`: a wrapper nested inside another collection is
+    not validated — the full statement (all operations incl. nested wrappers) is false today -/
+theorem nested_counterexample :
+    (step Generated.wrappers exO exC exFields exStart (.callNested "n" (.int 0) (.append (.str "bad")))).2 = .ok
+    ∧ WfState exO exC exFields
+        (step Generated.wrappers exO exC exFields exStart (.callNested "n" (.int 0) (.append (.str "bad")))).1
+        = false := by
+  decide
+
 end Typedpy.C03
